@@ -128,6 +128,9 @@ func (e *escaper) escape(c context, n parse.Node) context {
 	// The analysis recurses into nested nodes; the stack of the goroutine is not unlimited.
 	e.ns.depth++
 	defer func() { e.ns.depth-- }()
+	if e.ns.depth > e.ns.maxDepth {
+		e.ns.maxDepth = e.ns.depth
+	}
 	if e.ns.depth > maxAnalysisDepth {
 		return context{
 			state: stateError,
@@ -604,8 +607,9 @@ func coalesceTextNodes(n *parse.ListNode) {
 func (e *escaper) escapeListConditionally(c context, n *parse.ListNode, filter func(*escaper, context) bool) (context, bool) {
 	e1 := makeEscaper(e.ns)
 	// Make type inferences available to f. (The copy counts against the budget of the
-	// analysis: nested lists copy it once per level.)
-	e.ns.steps += len(e.output) / 16
+	// analysis: nested lists copy it once per level. It is charged by the size of the set,
+	// which bounds it and does not depend on what has been analysed before.)
+	e.ns.steps += len(e.ns.set) / 16
 	for k, v := range e.output {
 		e1.output[k] = v
 	}
@@ -758,6 +762,15 @@ func (e *escaper) escapeTree(c context, node parse.Node, name string, line int) 
 				err:   errorf(ErrOutputContext, node, line, "template is too deeply nested to be analysed: more than %d nodes visited", maxAnalysisSteps),
 			}, dname
 		}
+		// Likewise for the depth that its analysis reached below the call.
+		if d := e.ns.depth + e.ns.height[dname]; d > maxAnalysisDepth {
+			return context{
+				state: stateError,
+				err:   errorf(ErrOutputContext, node, line, "template is too deeply nested to be analysed: more than %d levels", maxAnalysisDepth),
+			}, dname
+		} else if d > e.ns.maxDepth {
+			e.ns.maxDepth = d
+		}
 		return memoizedContext(out).after(c), dname
 	}
 	t := e.template(name)
@@ -815,7 +828,16 @@ func (e *escaper) escapeTree(c context, node parse.Node, name string, line int) 
 		e.ns.pristine[name] = t.Tree.Copy()
 	}
 	before := e.ns.steps
+	outerMax := e.ns.maxDepth
+	e.ns.maxDepth = e.ns.depth
 	out := e.computeOutCtx(c, t)
+	if e.ns.height == nil {
+		e.ns.height = map[string]int{}
+	}
+	e.ns.height[dname] = e.ns.maxDepth - e.ns.depth
+	if outerMax > e.ns.maxDepth {
+		e.ns.maxDepth = outerMax
+	}
 	// escapeTemplateBody only recorded an assumption; record the computed context, or
 	// the error, so that later callers do not rely on an assumption that did not hold.
 	e.output[dname] = memoize(c, out)
